@@ -170,6 +170,9 @@ pub struct HandlerRunner {
     held: HashSet<u64>,
     /// monitor lines raised where no output buffer is at hand
     deferred_mons: Vec<String>,
+    /// the key a node opens messages from (address) with since the latest handshake it made or was
+    /// given there
+    adopted_latest: HashMap<(u64, SocketAddr), [u8; 16]>,
     entry_use: HashMap<(u64, SocketAddr), std::time::Instant>,
     /// C13: challenges a node put on the wire: (node, challenge) -> (not issued before (ledger ms), address);
     /// and when a handshake was last delivered to a node from an address
@@ -258,6 +261,7 @@ impl Default for HandlerRunner {
             dead_keys: HashSet::new(),
             held: HashSet::new(),
             deferred_mons: Vec::new(),
+            adopted_latest: HashMap::new(),
             entry_use: HashMap::new(),
             chal_issued: HashMap::new(),
             key_ctr: HashMap::new(),
@@ -927,6 +931,7 @@ impl HandlerRunner {
                 // the initiator's session lives at the address its handshake goes to
                 let e = self.key_addrs.entry((idx, k_rcp)).or_default();
                 if !e.contains(&dst) { e.push(dst); }
+                self.adopted_latest.insert((idx, dst), k_rcp);
             }
             self.wire_dst_hint = Some(dst);
             self.mon_emitted(idx, dst_idx, &bytes, out);
@@ -1838,8 +1843,16 @@ impl HandlerRunner {
                 // (a message the harness can open is a use of the recipient's session only if it is sealed
                 // under a key of a session the recipient itself has for that source - a handshake the
                 // recipient never saw yields keys that mean nothing to it: such a message does not open)
+                // (a node holds the keys of its current session and of the one before; the ledger is sure
+                // of two: the counterpart of the key the node itself last sealed with for that peer, and
+                // the key of the latest handshake it made or was given there.  Anything else may or may
+                // not open - it is then no certain use, and may have ended the session)
                 let opens_here = self.delivering_handshake
-                    || self.cur_key.map(|k| self.key_addrs.get(&(tidx, k)).map(|a| a.contains(&src)).unwrap_or(false)).unwrap_or(false);
+                    || self.cur_key.map(|k| {
+                        let by_seal = self.last_seal.get(&(tidx, src)).and_then(|ks| self.key_pair.get(ks)).map(|o| *o == k).unwrap_or(false);
+                        let by_hs = self.adopted_latest.get(&(tidx, src)).map(|a| *a == k).unwrap_or(false);
+                        by_seal || by_hs
+                    }).unwrap_or(false);
                 if hs_unchallenged_now {
                     stats.bump("h.handshake-datagram-without-outstanding-challenge");
                 } else if self.cur_authentic && opens_here {
@@ -1935,6 +1948,7 @@ impl HandlerRunner {
                             // the recipient's session (if the handshake is accepted) lives at this source
                             let e = self.key_addrs.entry((tidx, k_ini)).or_default();
                             if !e.contains(&src) { e.push(src); }
+                            self.adopted_latest.insert((tidx, src), k_ini);
                         }
                     }
                     for ((n, _), v) in self.ledger.outstanding_chal.iter_mut() {
